@@ -19,6 +19,20 @@ type c06Ill struct {
 	Off  uint64 `json:"off"`
 }
 
+// c06TearSpec: saves from another goroutine race with a dense stream of acknowledgements, every event in a snapshot of
+// its own, so that consecutive positions differ in every field: a stored tuple mixed from two events would show.
+func c06TearSpec(rng *rand.Rand, i int) *SessSpec {
+	sp := &SessSpec{NumVB: 1 + rng.Intn(2), Nodes: 1, AckSeed: rng.Int63(), Backlog: map[int][][]ItemSpec{}, Backend: "mem", PNow: 1}
+	n := 0
+	sp.Steps = append(sp.Steps, Step{Op: "barrier"}, Step{Op: "commitstorm"})
+	for k := 0; k < 300; k++ {
+		n++
+		sp.Steps = append(sp.Steps, Step{Op: "append", VB: rng.Intn(sp.NumVB), Items: []ItemSpec{{K: "m", Key: []byte(fmt.Sprintf("t%d", n)), Val: []byte("{}")}}})
+	}
+	sp.Steps = append(sp.Steps, Step{Op: "barrier"}, Step{Op: "stopstorm"}, Step{Op: "commit"})
+	return sp
+}
+
 func c06Spec(rng *rand.Rand, i int) *SessSpec {
 	sp := &SessSpec{NumVB: 1 + rng.Intn(6), Nodes: 1 + rng.Intn(2), AckSeed: rng.Int63(), Backlog: map[int][][]ItemSpec{}}
 	sp.Backend = []string{"mem", "cb", "mem", "cb", "file"}[rng.Intn(5)]
@@ -139,6 +153,13 @@ func init() {
 					sc.Race = true
 				}
 				out = append(out, sc)
+			}
+			nt := 6
+			if tier == "thorough" {
+				nt = 60
+			}
+			for i := 0; i < nt; i++ {
+				out = append(out, drv.Scenario{Kind: "tear", Seed: seed, Params: mustJSON(c06TearSpec(rng, i)), TimeoutS: 90, Solo: true})
 			}
 			ills := []c06Ill{}
 			for _, m := range []string{"below", "above", "nomarker"} {
